@@ -20,6 +20,7 @@ accumulateModel of the same raw function (model level). Partial: PSD (needs PT1)
 This file restates the theorems the property rests on (full statements; proofs are in PGProofs/).
 Generated once by harness/mkprops.py from harness/props_table.py + PGProperties/extra/C15.lean.in; committed as source.
 -/
+import PGProofs.Corollaries
 import PGProofs.RoutesThm
 import PGProofs.Conservation
 import PGProofs.MomentsThm
@@ -31,6 +32,9 @@ set_option pp.fieldNotation.generalized false
 
 namespace PG.C15
 open PG
+
+/-- the matrix route and the element route to a covariance agree -/
+theorem cov_routes_agree : ∀ {ρ : Type} [inst : Inhabited ρ] (n : ℕ) (idx : List ℕ) (r : ℕ → ρ) (raw : List ρ → ℚ) (mean : List ℚ), (∀ i ∈ idx, getR mean i = raw [r i]) → ∀ (i j : ℕ), i ≤ n → j ≤ n → i ∈ idx → j ∈ idx → covEntry n idx (fun i j ↦ raw [r i, r j]) mean i j = accumulateModel raw true true [r i, r j] := @PG.Corollaries.cov_routes_agree
 
 /-- moments are linear in every reward slot (SumReward / scalar ProductReward act linearly), all k -/
 theorem multilinear : ∀ {K : Type} [inst : Field K] [inst_1 : LinearOrder K] [inst_2 : IsStrictOrderedRing K] {ι : Type} [inst_3 : Fintype ι] [inst_4 : DecidableEq ι] {k : ℕ} (L : ExpLaw K) (S : ℕ → Matrix ι ι K) (R : Fin k → ι → K) (a : Fin k) (r' : ι → K) (c1 c2 : K) (α : ι → K) (fs : List (ℕ × K)), accumVal L S (Function.update R a fun i ↦ c1 * R a i + c2 * r' i) α fs = c1 * accumVal L S R α fs + c2 * accumVal L S (Function.update R a r') α fs := @PG.Conservation.accumVal_slot_linear
@@ -76,6 +80,7 @@ theorem cov_symm : ∀ (n : ℕ) (idx : List ℕ) (x : ℕ → ℕ → ℚ) (mea
 
 end PG.C15
 
+#print axioms PG.C15.cov_routes_agree
 #print axioms PG.C15.multilinear
 #print axioms PG.C15.memo_keys_injective
 #print axioms PG.C15.state_space_choice
